@@ -175,9 +175,31 @@ def r82(ctx, fx, keywords):
     ctx.inst(rid, "keywords", sample={"retained_candidates": retained[:12]})
 
 
+def r84(ctx, fx):
+    from . import grammar
+    rid = ctx.rule("R8.4", "a line comment may be empty: the text parser that follows the `//` tag accepts the empty string (opt / many0 / take_while), "
+                   "otherwise a line that ends right after `//` is rejected although the same line with `// x` or without the comment assembles")
+    f = fx.fn("mos_core::parser::cpp_comment")
+    if f is None:
+        ctx.fail_closed(rid, "parser::cpp_comment not found")
+        return
+    g = grammar.fn_grammar(f)
+    seqs = [t for t in grammar.walk(g) if t[0] == "seq" and t[1] and t[1][0][0] == "tag" and t[1][0][1] == "//"]
+    ctx.inst(rid, "cpp_comment|empty", sample={"grammar": grammar.short(g)[:80]})
+    if not seqs:
+        ctx.fail_closed(rid, "cpp_comment is not `//` followed by a text parser: %s" % grammar.short(g)[:80])
+        return
+    NULLABLE = ("opt", "many0", "takewhile", "take_while", "rest", "many0_count")
+    for body in seqs[0][1][1:]:
+        if body[0] not in NULLABLE:
+            ctx.finding(rid, "cpp_comment|empty", "the text of a `//` comment is parsed with `%s`, which needs at least one character: `lda #1 //` followed by a "
+                        "line break is a syntax error" % grammar.short(body)[:40], f.where)
+
+
 def run(ctx):
     fx = ctx.facts
     kws = r81_83(ctx, fx)
     r82(ctx, fx, kws)
+    r84(ctx, fx)
     ctx.not_decided("equality of bytes/symbols/diagnostics for concrete trivia placements; nested block comment scanning on arbitrary text; CRLF handling beyond "
                     "the newline trivia rule")
